@@ -593,7 +593,9 @@ MISC = ['#"a+b"', '#"[a-z]\\d"', '#uuid "6f3e1a2c-1b2d-4c3e-8f9a-0b1c2d3e4f5a"',
 # always part of the corpus (tags with data readers, escapes, namespaced maps)
 FIXED_PROGRAMS = ['#queue [1]', '#queue 1', '#inst "2020-01-02T03:04:05Z"', '#inst 1', '#uuid 1', '#py [1 {:a 2}]',
                   '#true 1', '"\\u6a91090e"', '"\\u00e9"', '#b "a\\x41"', '#b "\xe9"', '#:a{:b 1 c 2}', '#::{:b 1}',
-                  "^:m ^{:k 1} [a]", "#(+ % %2)", "`(a ~b ~@c d#)", "#'foo/bar", "##Inf", "#_#_a b c"]
+                  "^:m ^{:k 1} [a]", "#(+ % %2)", "`(a ~b ~@c d#)", "#'foo/bar", "##Inf", "#_#_a b c",
+                  # unhashable values (Python lists / dicts / sets) as set elements and map keys
+                  "#{#py []}", "#{[1] #py {}}", "#{#py #{1}}", "{#py [] 1}", "#{1 1}", "{1 2 1 3}"]
 
 
 class Gen:
